@@ -275,6 +275,9 @@ func Main(p Property) {
 		b, _ := json.MarshalIndent(c, "", " ")
 		fmt.Fprintln(Out, string(b))
 	case *flagWorker >= 0:
+		// sixteen workers share the machine: past this soft limit the collector
+		// works harder instead of letting the heap double once more
+		debug.SetMemoryLimit(2 << 30)
 		workerMain(p, env)
 	default:
 		os.Exit(parentMain(p, env))
